@@ -327,3 +327,33 @@ def validate_traces(ctx, area, module, cfg, traces, gen=None, lens=None, shards=
                 out[base + tid - 1] = per.get(tid, {"maxl": 0, "flags": {}})
                 out[base + tid - 1]["violated"] = r.violated
     return out
+
+
+class Hang(BaseException):
+    """raised inside the real code by the watchdog: the call did not return in time (observable outcome)"""
+
+
+class watchdog:
+    """with watchdog(5): real_code()  -- raises Hang in the main thread if the block runs longer"""
+
+    def __init__(self, seconds=5.0):
+        self.seconds = seconds
+
+    def _fire(self, signum, frame):
+        raise Hang("no return within %ss" % self.seconds)
+
+    def __enter__(self):
+        import signal
+        import threading
+        self.active = threading.current_thread() is threading.main_thread()
+        if self.active:
+            self.old = signal.signal(signal.SIGALRM, self._fire)
+            signal.setitimer(signal.ITIMER_REAL, self.seconds)
+        return self
+
+    def __exit__(self, *a):
+        import signal
+        if self.active:
+            signal.setitimer(signal.ITIMER_REAL, 0)
+            signal.signal(signal.SIGALRM, self.old)
+        return False
